@@ -87,6 +87,24 @@ def cfgOK (cfg : Cfg) : Bool :=
   decide (0 < cfg.count) && decide (0 < cfg.interval) && decide (cfg.rules.length ≤ 256) &&
   cfg.rules.all (fun r => !r.distr.isEnabled || distrOK r.distr)
 
+/-- the hypothesis of the `…_partial` theorems about the limiters map's expiry: whenever an event
+    finds no limiter for its key (`live` = keys that have one; a key loses it by `expire`), no
+    earlier event of that key (`hist`) is attributed to a bucket that is still inside the retained
+    window. First use of a key satisfies it trivially. -/
+def SafeExpiry (cfg : Cfg) : List Bytes → List Ev → List Op → Prop
+  | _, _, [] => True
+  | live, hist, .expire k :: ops => SafeExpiry cfg (live.filter (fun k' => k' != k)) hist ops
+  | live, hist, .ev e :: ops =>
+    (∀ k, limKeyOf cfg e = some k → k ∈ live ∨
+        ∀ e' ∈ hist, limKeyOf cfg e' = some k → attr cfg e' < bucketOf cfg e.now - cfg.count + 1) ∧
+    SafeExpiry cfg (match limKeyOf cfg e with | some k => k :: live | none => live) (e :: hist) ops
+
+/-- no `expire` op at all -/
+def noExpire : List Op → Bool
+  | [] => true
+  | .ev _ :: t => noExpire t
+  | .expire _ :: _ => false
+
 /-! ### the oracle -/
 
 def allIdx (n : Nat) (f : Nat → Bool) : Bool := (List.range n).all f
